@@ -51,6 +51,11 @@ CLAIMED = {
    text="Generated closed curves (polygons of every numeric kind, uniform degree 2/3, mixed degrees) built with from_vertices, from_segments, from_ctrlpoints and from_full_curve; segments, vertices, box, signed length, area, orientation and pairwise == are compared with the model; malformed chains (gap, not closing, string, non-curve) must raise.",
    note="Trusted: the model description itself and refgeom area/length; from_full_curve is compared with 1e-9 tolerance because it passes through pynurbs arithmetic.",
    ref="4/C17"),
+ "C01": dict(
+   technique="property-based testing (Hypothesis): generated operand pairs and read-once operator programs vs boolean algebra over reference memberships; result observed through `in` and through a structure-free winding evaluation of its boundary curves",
+   text="Generated operands of every kind and orientation (rational/float polygons incl. non-convex, curved degree 1..3) in crossing/nested/apart configurations with | & - ^ + * ~ - and nested programs over 3-4 atoms; the result region is compared point-wise with the model on witness points of every face of the arrangement plus uniform, far, near-boundary and sagitta points, both through `p in R` and through the winding numbers of R's boundary curves; any exception or call over 120 s on a judged (transversal, well-conditioned) case is a violation.",
+   note="Trusted: vlib/refgeom.py (winding, exact polygon predicates, crossing finder used for conditioning). Two open known findings (operands in contact; xor of crossing float/curved operands) are excluded by input predicates and counted; float/curved crossings below the stated conditioning thresholds are skipped and counted.",
+   ref="4/C01"),
 }
 NOT_YET = "check not built yet in this round (planned, see DESIGN.md section 4); nothing is claimed for it"
 
